@@ -266,6 +266,11 @@ func (t *Trimmer) traceExtendMethod(fathers []*parser.Service, svc *parser.Servi
 			funcName := father.Name + "." + function.Name
 			for i, method := range t.trimMethods {
 				if ok, _ := method.MatchString(funcName); ok {
+					// same rule as markService: a filter that is merely a proper prefix of
+					// the name (Main.get vs Main.get_more) does not select the method
+					if funcName != method.String() && strings.HasPrefix(funcName, method.String()) {
+						continue
+					}
 					currentMap[svc] = struct{}{}
 					t.markFunction(function, ast, filename)
 					t.trimMethodValid[i] = true
